@@ -1,9 +1,134 @@
 ------------------------------ MODULE PlanarImpl ------------------------------
-(* L2 dispatch over shapes for point membership (what the code does). *)
+(***************************************************************************)
+(* L2 -- geometry/poly.go, line.go, rect.go, point.go transcribed: the 4x4x2 *)
+(* method table over the shapes of Planar.  ContainsL2 / IntersectsL2 give   *)
+(* the answer with the brute-force search order; ContainsMayL2(A,B,w) says   *)
+(* whether some admissible order of an indexed search can make the call      *)
+(* return w.  Line.ContainsLine is the segment walk of line.go:69-109, run   *)
+(* as a bounded iteration: it returns "true", "false" or "runaway" (the walk *)
+(* revisits a state, i.e. the real loop never terminates).                   *)
+(***************************************************************************)
 EXTENDS Planar, RingImpl
+
+\* ---- point membership (C01)
+PolyContainsPointL2(ext, holes, p) ==                                         \* poly.go:93-108
+   /\ RingContainsPointL2(RingOp(ext), p, TRUE).hit
+   /\ \A h \in 1..Len(holes) : ~RingContainsPointL2(RingOp(holes[h]), p, FALSE).hit
+LineContainsPointL2(l, p) == \E i \in 1..NumSegmentsL2(l, FALSE) :              \* line.go:33-46
+                                RaycastL2(SegmentAtL2(l,i)[1], SegmentAtL2(l,i)[2], p) = "on"
+R4(s) == <<X(s[2]), Y(s[2]), X(s[3]), Y(s[3])>>                                 \* rect shape -> rect4
 InL2(p, s) ==
-   CASE Kind(s) = "pt"   -> p = s[2]                                         \* point.go:27
-     [] Kind(s) = "rect" -> RectContainsPointL2(s[2], s[3], p)
+   CASE Kind(s) = "pt"   -> p = s[2]                                          \* point.go:27
+     [] Kind(s) = "rect" -> PtInRect(p, R4(s))                                \* rect.go:113
      [] Kind(s) = "line" -> LineContainsPointL2(s[2], p)
      [] Kind(s) = "poly" -> PolyContainsPointL2(s[2], s[3], p)
+
+\* ---- Line.ContainsLine (line.go:69-109)
+LineWalk(line, other) ==
+  IF EmptyL2(line, FALSE) \/ EmptyL2(other, FALSE) THEN "false"
+  ELSE LET nl == NumSegmentsL2(line, FALSE) no == NumSegmentsL2(other, FALSE)
+           LS(j) == SegmentAtL2(line, j)  OS(i) == SegmentAtL2(other, i)
+           SegC(s, t) == ContainsSegmentL2(s[1], s[2], t[1], t[2])
+           start == {j \in 1..nl : SegC(LS(j), OS(1))}
+           RECURSIVE Walk(_,_,_)
+           \* segIdx (1-based), i (1-based index of the other segment under test), steps taken
+           Walk(segIdx, i, steps) ==
+              IF i > no THEN "true"
+              ELSE IF steps > (nl + 1) * (no + 1) THEN "runaway"
+              ELSE LET ls == LS(segIdx) os == OS(i) IN
+                   IF SegC(ls, os) THEN Walk(segIdx, i+1, steps+1)
+                   ELSE IF os[1] = ls[1] THEN (IF segIdx = 1 THEN "false" ELSE Walk(segIdx-1, i, steps+1))
+                   ELSE IF os[1] = ls[2] THEN (IF segIdx = nl THEN "false" ELSE Walk(segIdx+1, i, steps+1))
+                   ELSE Walk(segIdx, i+1, steps+1)               \* falls through: the segment is skipped
+       IN IF start = {} THEN "false"
+          ELSE Walk(CHOOSE j \in start : \A k \in start : j <= k, 2, 1)
+
+B2S(b) == IF b THEN "true" ELSE "false"
+LineOfRect(r4) == <<<<r4[1], r4[2]>>, <<r4[3], r4[4]>>>>
+\* rect of a shape as the code computes it
+ShapeRect(s) == CASE Kind(s) = "pt" -> <<X(s[2]),Y(s[2]),X(s[2]),Y(s[2])>>
+                  [] Kind(s) = "rect" -> R4(s)
+                  [] Kind(s) = "line" -> PP(s[2], FALSE).rect
+                  [] Kind(s) = "poly" -> PP(s[2], TRUE).rect
+ShapeEmpty(s) == CASE Kind(s) \in {"pt", "rect"} -> FALSE
+                   [] Kind(s) = "line" -> EmptyL2(s[2], FALSE)
+                   [] Kind(s) = "poly" -> EmptyL2(s[2], TRUE)
+\* a polygon operand: [ext |-> series operand, holes |-> sequence of series operands]
+PolyOf(s) == IF Kind(s) = "rect" THEN [ext |-> RectOp(R4(s)), holes |-> <<>>]
+             ELSE [ext |-> RingOp(s[2]), holes |-> [h \in 1..Len(s[3]) |-> RingOp(s[3][h])]]
+
+\* Poly.ContainsPoly (poly.go:158-186): may return `want` for some admissible search order
+PolyContainsPolyMay(P, Q, want) ==
+  LET extMay(w) == RingContainsRingMay(P.ext, Q.ext, TRUE, w)
+      \* hole h of P blocks unless it is contained in a hole of Q
+      Blocks(h) == RingIntersectsRingL2(P.holes[h], Q.ext, FALSE)
+      SavedMay(h, w) == IF w THEN \E k \in 1..Len(Q.holes) : RingContainsRingMay(Q.holes[k], P.holes[h], TRUE, TRUE)
+                        ELSE \A k \in 1..Len(Q.holes) : RingContainsRingMay(Q.holes[k], P.holes[h], TRUE, FALSE)
+  IN IF want THEN extMay(TRUE) /\ \A h \in 1..Len(P.holes) : ~Blocks(h) \/ SavedMay(h, TRUE)
+     ELSE extMay(FALSE) \/ \E h \in 1..Len(P.holes) : Blocks(h) /\ SavedMay(h, FALSE)
+PolyIntersectsPolyL2(P, Q) ==                                                     \* poly.go:188-207
+  /\ RingIntersectsRingL2(Q.ext, P.ext, TRUE)
+  /\ \A h \in 1..Len(P.holes) : ~RingContainsRingL2(P.holes[h], Q.ext, FALSE)
+  /\ \A h \in 1..Len(Q.holes) : ~RingContainsRingL2(Q.holes[h], P.ext, FALSE)
+PolyContainsLineMay(P, l, want) ==                                                \* poly.go:128-141
+  LET lo == OpenOp(l)
+      HoleHit(h) == RingIntersectsLineL2(P.holes[h], lo, FALSE)
+  IN IF want THEN RingContainsRingMay(P.ext, lo, TRUE, TRUE) /\ \A h \in 1..Len(P.holes) : ~HoleHit(h)
+     ELSE RingContainsRingMay(P.ext, lo, TRUE, FALSE) \/ \E h \in 1..Len(P.holes) : HoleHit(h)
+PolyIntersectsLineL2(P, l) ==                                                     \* poly.go:143-156
+  /\ RingIntersectsLineL2(P.ext, OpenOp(l), TRUE)
+  /\ \A h \in 1..Len(P.holes) : ~RingContainsRingL2(P.holes[h], OpenOp(l), FALSE)
+\* Line.ContainsPoly (line.go:139-154): only a polygon whose rectangle is degenerate can be contained
+LineContainsPolyL2(l, prect, pempty) ==
+  IF EmptyL2(l, FALSE) \/ pempty THEN "false"
+  ELSE IF prect[1] # prect[3] /\ prect[2] # prect[4] THEN "false"
+  ELSE LineWalk(l, LineOfRect(prect))
+LineIntersectsLineL2(l, m) ==                                                     \* line.go:111-137
+  IF EmptyL2(l, FALSE) \/ EmptyL2(m, FALSE) THEN FALSE
+  ELSE IF ~RectMeets(PP(l, FALSE).rect, PP(m, FALSE).rect) THEN FALSE
+  ELSE \E i \in 1..NumSegmentsL2(l, FALSE) : \E j \in 1..NumSegmentsL2(m, FALSE) :
+          SegIntersectsL2(SegmentAtL2(l,i)[1], SegmentAtL2(l,i)[2], SegmentAtL2(m,j)[1], SegmentAtL2(m,j)[2])
+          \* (the smaller line is the receiver of IntersectsSegment; the kernel is symmetric, theorem T1)
+
+\* ---- the method table: the set of results the call A.ContainsX(B) may return ("true","false","runaway")
+ContainsSetL2(A, B) ==
+  LET ka == Kind(A) kb == Kind(B) IN
+  CASE ka = "pt" ->
+        (CASE kb = "pt" -> {B2S(A[2] = B[2])}                                                       \* point.go:27
+           [] kb = "rect" -> {B2S(ShapeRect(A) = R4(B))}                                            \* point.go:35
+           [] kb \in {"line", "poly"} -> {B2S(~ShapeEmpty(B) /\ ShapeRect(B) = ShapeRect(A))})      \* point.go:43-62
+    [] ka = "rect" ->
+        (CASE kb = "pt" -> {B2S(PtInRect(B[2], R4(A)))}
+           [] kb = "rect" -> {B2S(RectInside(R4(B), R4(A)))}                                        \* rect.go:122-130
+           [] kb \in {"line", "poly"} -> {B2S(~ShapeEmpty(B) /\ RectInside(ShapeRect(B), R4(A)))})  \* rect.go:142-161
+    [] ka = "line" ->
+        (CASE kb = "pt" -> {B2S(LineContainsPointL2(A[2], B[2]))}
+           [] kb = "line" -> {LineWalk(A[2], B[2])}
+           [] kb \in {"rect", "poly"} -> {LineContainsPolyL2(A[2], ShapeRect(B), ShapeEmpty(B))})   \* line.go:55-61,139
+    [] ka = "poly" ->
+        (CASE kb = "pt" -> {B2S(PolyContainsPointL2(A[2], A[3], B[2]))}
+           [] kb = "line" -> LET P == PolyOf(A) IN {B2S(w) : w \in {v \in BOOLEAN : PolyContainsLineMay(P, B[2], v)}}
+           [] kb \in {"rect", "poly"} -> LET P == PolyOf(A) Q == PolyOf(B) IN {B2S(w) : w \in {v \in BOOLEAN : PolyContainsPolyMay(P, Q, v)}})
+IntersectsL2(A, B) ==
+  LET ka == Kind(A) kb == Kind(B) IN
+  CASE ka = "pt" ->
+        (CASE kb = "pt" -> A[2] = B[2]
+           [] kb = "rect" -> PtInRect(A[2], R4(B))                                                  \* point.go:39
+           [] kb = "line" -> LineContainsPointL2(B[2], A[2])
+           [] kb = "poly" -> PolyContainsPointL2(B[2], B[3], A[2]))
+    [] ka = "rect" ->
+        (CASE kb = "pt" -> PtInRect(B[2], R4(A))
+           [] kb = "rect" -> RectMeets(R4(A), R4(B))
+           [] kb = "line" -> RingIntersectsLineL2(RectOp(R4(A)), OpenOp(B[2]), TRUE)                 \* rect.go:149-154
+           [] kb = "poly" -> PolyIntersectsPolyL2(PolyOf(B), PolyOf(A)))                              \* rect.go:163-168 -> poly.IntersectsRect
+    [] ka = "line" ->
+        (CASE kb = "pt" -> LineContainsPointL2(A[2], B[2])
+           [] kb = "rect" -> RingIntersectsLineL2(RectOp(R4(B)), OpenOp(A[2]), TRUE)                 \* line.go:63-68
+           [] kb = "line" -> LineIntersectsLineL2(A[2], B[2])
+           [] kb = "poly" -> PolyIntersectsLineL2(PolyOf(B), A[2]))                                  \* line.go:156
+    [] ka = "poly" ->
+        (CASE kb = "pt" -> PolyContainsPointL2(A[2], A[3], B[2])
+           [] kb = "rect" -> PolyIntersectsPolyL2(PolyOf(A), PolyOf(B))                              \* poly.go:118-126
+           [] kb = "line" -> PolyIntersectsLineL2(PolyOf(A), B[2])
+           [] kb = "poly" -> PolyIntersectsPolyL2(PolyOf(A), PolyOf(B)))
 =============================================================================
